@@ -92,6 +92,14 @@ def terminators_before(text, off):
     return 'none'
 
 
+# "its first token, or its operator for binary, assignment, conditional and
+# accessor forms": the forms the property names must sit on their operator;
+# comma, label, postfix and grouping nodes (not named) may sit on either
+OPERATOR_ANCHORED = ('BinOp', 'Assign', 'Conditional', 'DotAccessor',
+                     'BracketAccessor')
+EITHER_ANCHOR = ('Comma', 'Label', 'PostfixExpr', 'GroupingOp')
+
+
 def check_text(acc, text, lay, w):
     acc.cases += 1
     out = I.run_parse(text, keep_node=True)
@@ -136,6 +144,16 @@ def check_text(acc, text, lay, w):
                                 kind, where, layout_before(text, rn.start)),
                             w, '%s offset %d, extent [%d,%d), own tokens %r'
                             % (kind, node.lexpos, rn.start, rn.end, rn.toks))
+            elif kind in OPERATOR_ANCHORED:
+                if rn.toks and node.lexpos != rn.toks[0][1]:
+                    acc.bag.add('C11|node-position-not-on-its-operator|%s'
+                                % kind, w, '%s offset %d, its operator %r is '
+                                'at %d' % (kind, node.lexpos, rn.toks[0][0],
+                                           rn.toks[0][1]))
+            elif kind not in EITHER_ANCHOR and node.lexpos != rn.start:
+                acc.bag.add('C11|node-position-not-on-its-first-token|%s'
+                            % kind, w, '%s offset %d, first token at %d' % (
+                                kind, node.lexpos, rn.start))
         # (3) token map entries
         tm = getattr(node, '_token_map', None) or {}
         inserted = rn.semi is not None and rn.semi[0] == 'inserted'
@@ -213,7 +231,10 @@ def run(tier, rep):
     rep.cov['bounds'] = {'tier': tier}
     rep.assumptions += [
         'allowed anchors of a node = its first token or one of the tokens '
-        'of its own production (R2 own-token list)',
+        'of its own production (R2 own-token list); binary, assignment, '
+        'conditional and accessor nodes: their (first) operator token; all '
+        'others except comma, label, postfix and grouping nodes: their '
+        'first token',
         'texts on which the two parsers disagree are left to C03/C04']
 
 
